@@ -949,7 +949,11 @@ def store_writes_keyed_by_object(repo, rep, r4, files=None, floor=8):
                             isinstance(key.func, ast.Attribute) and \
                             key.func.attr == 'copy':
                         key = key.func.value
+                    from ..flow import value_of as _vo4
                     kt = norm(key)
+                    if isinstance(key, ast.Name):
+                        # a local that holds the object's path
+                        kt = norm(_vo4(f, key))
                     ok = kt in (ob + '.path', ob + '.classname', ob + '.name')
                     # key derived from a sibling copy of the same source
                     if not ok and isinstance(key, ast.Attribute) and \
@@ -1022,12 +1026,19 @@ def already_exists_means_key_exists(repo, rep):
                 r19.functions.add(f.fq)
                 atoms = [a for t0, p0 in fx.get(rz, ((), ()))[0]
                          for a in GuardWalker._atoms(t0, p0)]
-                by_fact = any(
-                    pol and isinstance(t, ast.Call) and
-                    isinstance(t.func, ast.Attribute) and
-                    t.func.attr in ('object_exists',
-                                    'find_interop_namespace')
-                    for t, pol in atoms)
+                from ..flow import value_of as _vo19
+
+                def membership(t):
+                    # the store's own answer, directly or through a private
+                    # helper that returns it
+                    if isinstance(t, ast.Call) and \
+                            (dotted(t.func) or '').startswith('self._'):
+                        t = _vo19(f, t)
+                    return isinstance(t, ast.Call) and \
+                        isinstance(t.func, ast.Attribute) and \
+                        t.func.attr in ('object_exists',
+                                        'find_interop_namespace')
+                by_fact = any(pol and membership(t) for t, pol in atoms)
                 by_handler = False
                 if id(rz) in handlers:
                     t, h = handlers[id(rz)]
